@@ -24,6 +24,7 @@ def encShelf : Shelf → Json
 def encEv : Ev → Json
   | .create s => Json.arr #[Json.str "create", jn s]
   | .call c => encCall c
+  | .xi v n => Json.arr #[Json.str "xi", jn v, jn n]
 
 def encSched (s : Sched) : Json :=
   Json.mkObj [("nv", encNV s.nv), ("shelf", encShelf s.shelf), ("dice", encPos s.dice)]
@@ -31,12 +32,13 @@ def encSched (s : Sched) : Json :=
 def encObj (o : Obj) : Json :=
   Json.mkObj [("nv", encNV o.nv), ("seed", jn o.seed), ("rng", encPos o.rng),
     ("seedUsed", jn o.seedUsed), ("nvUsed", encNV o.nvUsed), ("hBuilt", Json.bool o.hBuilt),
-    ("shelf", encShelf o.shelf)]
+    ("shelf", encShelf o.shelf), ("seedV", jn o.seedV)]
 
 def encTrace (t : Trace) : Json :=
   Json.mkObj [("obj", encObj t.obj),
     ("evs", Json.arr (t.evs.map fun e => Json.arr (e.map encEv).toArray).toArray),
-    ("scheds", Json.arr (t.scheds.map encSched).toArray)]
+    ("scheds", Json.arr (t.scheds.map encSched).toArray),
+    ("xis", Json.arr (t.xis.map fun x => Json.arr #[jn x.1, jn x.2]).toArray)]
 
 def decNV3 (a b c : Json) : Except String NV := do
   return ⟨← a.getNat?, ← b.getNat?, ← c.getNat?⟩
@@ -51,6 +53,9 @@ def decAct (j : Json) : Except String Act := do
   | "build", [] => return .build
   | "run", [] => return .run
   | "setN", [x, y, z] => return .setN (← decNV3 x y z)
+  | "setSeedV", [v] => return .setSeedV (← v.getNat?)
+  | "readShelf", [] => return .readShelf
+  | "readInt", [] => return .readInt
   | t, _ => throw s!"bad op {t}"
 
 def decOps (j : Json) : Except String (List Act) := do
